@@ -56,7 +56,9 @@ Fixpoint index_loop (l : list av) (pos : Z) (v : av) : list Z :=
 Definition index_of (l : list av) (v : av) : list Z := index_loop l 1 v.
 
 (* ---- fn:min / fn:max / fn:sum / fn:avg ---- *)
-Inductive res := RVal (a : av) | REmpty | RErr (c : Z).      (* c: 1 FORG0001 (untyped does not cast), 6 FORG0006 *)
+Inductive res := RVal (a : av) | REmpty | RErr (c : Z).
+(* c: 1 FORG0001 (an untypedAtomic item does not cast to xs:double), 6 FORG0006 (values without a common ordered /
+   numeric type), 16 both conditions hold (either code) *)
 
 Definition trank (t : ntype) : Z := match t with TInteger => 0 | TDecimal => 1 | TFloat => 2 | TDouble => 3 end.
 Definition tpromote (a b : ntype) : ntype := if trank a <? trank b then b else a.
@@ -76,6 +78,9 @@ Fixpoint conv_all (l : list av) : option (list av) :=
   | [] => Some []
   | x :: r => match conv x, conv_all r with Some y, Some r' => Some (y :: r') | _, _ => None end
   end.
+(* the error when some untypedAtomic item does not cast: FORG0001, or either code when the typed items are not numeric *)
+Definition conv_error (l : list av) : res :=
+  if forallb (fun a => match a with ANum _ _ | AUntyped _ _ => true | _ => false end) l then RErr 1 else RErr 16.
 Definition all_num (l : list av) : bool := forallb (fun a => match a with ANum _ _ => true | _ => false end) l.
 Definition all_str (l : list av) : bool := forallb (fun a => match a with AStr _ _ => true | _ => false end) l.
 Definition all_bool (l : list av) : bool := forallb (fun a => match a with ABool _ => true | _ => false end) l.
@@ -90,7 +95,7 @@ Definition pick_n (mx : bool) (a b : nval) : nval := if mx then (if nval_lt a b 
 Definition pick_z (mx : bool) (a b : Z) : Z := if mx then Z.max a b else Z.min a b.
 Definition extreme (mx : bool) (l : list av) : res :=
   match conv_all l with
-  | None => RErr 1
+  | None => conv_error l
   | Some [] => REmpty
   | Some ((x :: _) as c) =>
     if all_num c then
@@ -123,7 +128,7 @@ Definition nsum (l : list nval) : nval := fold_left nval_add l (NFin 0 1).
 Definition is_dur (f : Z) : bool := (f =? 4) || (f =? 5).
 Definition sum_ (l : list av) : res :=
   match conv_all l with
-  | None => RErr 1
+  | None => conv_error l
   | Some [] => RVal (ANum TInteger (NFin 0 1))
   | Some ((x :: _) as c) =>
     if all_num c then RVal (ANum (num_type c) (nsum (num_vals c)))
@@ -133,14 +138,23 @@ Definition sum_ (l : list av) : res :=
          end
   end.
 Definition ndiv (a : nval) (c : positive) : nval := match a with NFin n d => NFin n (d * c) | x => x end.
-(* fn:avg on numeric sequences (durations are left to sum): the average of xs:integer values is an xs:decimal *)
+(* fn:avg: the average of xs:integer values is an xs:decimal; yearMonthDuration div n rounds the months half up,
+   dayTimeDuration div n is taken in whole milliseconds (the harness only judges the divisible cases) *)
 Definition avg_ (l : list av) : res :=
   match conv_all l with
-  | None => RErr 1
+  | None => conv_error l
   | Some [] => REmpty
-  | Some c =>
+  | Some ((x :: _) as c) =>
+    let n := Z.of_nat (length c) in
     if all_num c then
       let t := num_type c in
       RVal (ANum (match t with TInteger => TDecimal | _ => t end) (ndiv (nsum (num_vals c)) (Pos.of_nat (length c))))
-    else RErr 6
+    else match x with
+         | AOrd f _ =>
+           if is_dur f && all_ord f c then
+             let s := fold_left Z.add (ints_of c) 0 in
+             RVal (AOrd f (if f =? 4 then (2 * s + n) / (2 * n) else s / n))
+           else RErr 6
+         | _ => RErr 6
+         end
   end.
